@@ -1,11 +1,12 @@
 --------------------------- MODULE MCAliasCaps ---------------------------
-(* every wrapper chain of length <= 3 over every base shape *)
+(* every wrapper chain of length <= MaxWrap over every base shape *)
 EXTENDS AliasCaps, Json
+CONSTANT MaxWrap
 VARIABLES ws, base, phase
 vars == <<ws, base, phase>>
 
 Init == ws = <<>> /\ base = "string" /\ phase = "pick"
-Wrap == phase = "pick" /\ Len(ws) < 3 /\ (\E w \in Wrappers : ws' = <<w>> \o ws /\ WellFormed(ws')) /\ UNCHANGED <<base, phase>>
+Wrap == phase = "pick" /\ Len(ws) < MaxWrap /\ (\E w \in Wrappers : ws' = <<w>> \o ws /\ WellFormed(ws')) /\ UNCHANGED <<base, phase>>
 Base == phase = "pick" /\ (\E b \in Bases : base' = b) /\ phase' = "done" /\ UNCHANGED ws
 Spec == Init /\ [][Wrap \/ Base]_vars
 
